@@ -179,25 +179,33 @@ func newDecoratorController(resources *dynamicdiscovery.ResourceMap, dynClient *
 	}()
 
 	for _, parent := range dc.Spec.Resources {
-		informer, err := dynInformers.Resource(parent.APIVersion, parent.Resource)
-		if err != nil {
-			return nil, fmt.Errorf("can't create informer for parent resource: %w", err)
-		}
 		groupVersion, err := schema.ParseGroupVersion(parent.APIVersion)
 		if err != nil {
 			return nil, fmt.Errorf("can't parse parent resource groupVersion: %w", err)
+		}
+		if c.parentInformers.Get(groupVersion.WithResource(parent.Resource)) != nil {
+			// Listed twice: one subscription is enough (a second one would never be closed).
+			continue
+		}
+		informer, err := dynInformers.Resource(parent.APIVersion, parent.Resource)
+		if err != nil {
+			return nil, fmt.Errorf("can't create informer for parent resource: %w", err)
 		}
 		c.parentInformers.Set(groupVersion.WithResource(parent.Resource), informer)
 	}
 
 	for _, child := range dc.Spec.Attachments {
-		informer, err := dynInformers.Resource(child.APIVersion, child.Resource)
-		if err != nil {
-			return nil, fmt.Errorf("can't create informer for child resource: %w", err)
-		}
 		groupVersion, err := schema.ParseGroupVersion(child.APIVersion)
 		if err != nil {
 			return nil, fmt.Errorf("can't parse child resource groupVersion: %w", err)
+		}
+		if c.childInformers.Get(groupVersion.WithResource(child.Resource)) != nil {
+			// Listed twice: one subscription is enough (a second one would never be closed).
+			continue
+		}
+		informer, err := dynInformers.Resource(child.APIVersion, child.Resource)
+		if err != nil {
+			return nil, fmt.Errorf("can't create informer for child resource: %w", err)
 		}
 		c.childInformers.Set(groupVersion.WithResource(child.Resource), informer)
 	}
